@@ -223,8 +223,17 @@ int16_t COParaDefault(CO_PARA *pg)
     printf("cb paradef %d\n", gid);
     return 0;
 }
-void CORpdoWriteData(CO_IF_FRM *f, uint8_t pos, uint8_t size, CO_OBJ *obj) { (void)f; printf("cb rpdowr %u %u %x\n", pos, size, obj->Key); }
-void COTpdoReadData(CO_IF_FRM *f, uint8_t pos, uint8_t size, CO_OBJ *obj)  { (void)f; printf("cb tpdord %u %u %x\n", pos, size, obj->Key); }
+/* mapped objects larger than 4 bytes are the application's business: this application copies domains to / from the frame */
+void CORpdoWriteData(CO_IF_FRM *f, uint8_t pos, uint8_t size, CO_OBJ *obj)
+{
+    printf("cb rpdowr %u %u %x\n", pos, size, obj->Key);
+    if (obj->Type == CO_TDOMAIN) { CO_OBJ_DOM *d = (CO_OBJ_DOM *)obj->Data; for (uint8_t i = 0; i < size && i < d->Size && pos + i < 8; i++) d->Start[i] = f->Data[pos + i]; }
+}
+void COTpdoReadData(CO_IF_FRM *f, uint8_t pos, uint8_t size, CO_OBJ *obj)
+{
+    printf("cb tpdord %u %u %x\n", pos, size, obj->Key);
+    if (obj->Type == CO_TDOMAIN) { CO_OBJ_DOM *d = (CO_OBJ_DOM *)obj->Data; for (uint8_t i = 0; i < size && i < d->Size && pos + i < 8; i++) f->Data[pos + i] = d->Start[i]; }
+}
 
 static void app_tmr(void *arg)  { printf("cb apptmr %d %u\n", (int)((int *)arg - AppTag), Tick); }
 static uint32_t CbTmrStart; static int CbTmrTag = -1;     /* csdocbtimer: the completion callback starts an application timer */
